@@ -2593,7 +2593,7 @@ def distributed_shampoo(
     errors = metrics.inverse_pth_root_errors
     errors = errors.reshape((-1, 1, 1))
     predicate = jnp.logical_or(
-        jnp.isnan(errors),
+        jnp.logical_not(jnp.isfinite(errors)),
         errors >= inverse_failure_threshold)
     # Select rather than blend: a failed inverse may contain NaN/Inf, and
     # 0 * NaN would leak it into the stored preconditioners.
@@ -2962,7 +2962,8 @@ def distributed_shampoo(
 
     def _skip(error):
       condition = jnp.logical_or(
-          jnp.isnan(error), error >= inverse_failure_threshold)
+          jnp.logical_not(jnp.isfinite(error)),
+          error >= inverse_failure_threshold)
       return condition.astype(error.dtype)
 
     def _select_preconditioner(error, new_p, old_p):
@@ -3210,7 +3211,8 @@ def distributed_shampoo(
 
     def _skip(error):
       condition = jnp.logical_or(
-          jnp.isnan(error), error >= inverse_failure_threshold)
+          jnp.logical_not(jnp.isfinite(error)),
+          error >= inverse_failure_threshold)
       return condition.astype(error.dtype)
 
     def _select_preconditioner(error, new_p, old_p):
@@ -3405,7 +3407,8 @@ def distributed_shampoo(
 
     def _skip(error):
       condition = jnp.logical_or(
-          jnp.isnan(error), error >= inverse_failure_threshold)
+          jnp.logical_not(jnp.isfinite(error)),
+          error >= inverse_failure_threshold)
       return condition.astype(error.dtype)
 
     def _select_preconditioner(error, new_p, old_p):
